@@ -533,11 +533,14 @@ Section Components.
     apply Rlt_le, Rinv_0_lt_compat, ofnat_pos. destruct ids; [contradiction|cbn; lia].
   Qed.
 
-  Lemma inv_rmsd ids refs c fc : NoDup ids -> length refs = length ids -> rmsd_value Rops pos ids refs c <> 0 ->
+  Lemma inv_rmsd_expr ids refs c fc : NoDup ids -> length refs = length ids -> rmsd_value Rops pos ids refs c <> 0 ->
     (forall rc, c = Some rc -> vsum Rops refs = vscale Rops (ofnat Rops (length ids)) rc) ->
-    ft (CRmsd ids refs c) (app (CRmsd ids refs c) fc) = fc.
+    adot Rops ids (rmsd_grads Rops pos ids refs c)
+      (fadd Rops (aapply Rops ids (rmsd_grads Rops pos ids refs c) fc)
+                 (aapply Rops ids (fit_grads Rops (length ids) c (rmsd_grads Rops pos ids refs c)) fc))
+    * ofnat Rops (length ids) = fc.
   Proof.
-    intros Hn Hl Hx Hc. cbn [cvc_ft cvc_apply].
+    intros Hn Hl Hx Hc.
     assert (Hne : ids <> []).
     { intros ->. apply Hx. unfold rmsd_value, norm2_sum, rmsd_diff, frame_pos, tsum. destruct c; cbn [map fold_right length vsub_list]; rs;
         unfold Rdiv; rewrite Rmult_0_l; apply sqrt_0. }
@@ -566,6 +569,25 @@ Section Components.
     rewrite Hgg, Hfit.
     assert (HS : norm2_sum Rops D = N * (x * x)) by (rewrite Hsq; field; lra).
     rewrite HS. unfold k. field. split; lra.
+  Qed.
+
+  Lemma best_copy_In (fp cur : list RV) extra : In (best_copy Rops fp cur extra) (cur :: extra).
+  Proof.
+    revert cur; induction extra as [|c r IH]; intros cur; cbn [best_copy]; [left; reflexivity|].
+    destruct (nltb Rops _ _).
+    - right. exact (IH c).
+    - destruct (IH cur) as [E|E]; [left; exact E | right; right; exact E].
+  Qed.
+  (* symmetry-adapted rmsd: whichever copy of the reference is selected, application and measurement use the same one *)
+  Lemma inv_rmsd ids refs extra c fc : NoDup ids ->
+    (forall r, In r (refs :: extra) -> length r = length ids) ->
+    rmsd_value Rops pos ids (rmsd_best Rops pos ids refs extra c) c <> 0 ->
+    (forall rc, c = Some rc -> forall r, In r (refs :: extra) -> vsum Rops r = vscale Rops (ofnat Rops (length ids)) rc) ->
+    ft (CRmsd ids refs extra c) (app (CRmsd ids refs extra c) fc) = fc.
+  Proof.
+    intros Hn Hl Hx Hc. cbn [cvc_ft cvc_apply].
+    pose proof (best_copy_In (frame_pos Rops pos ids c) refs extra) as Hin. fold (rmsd_best Rops pos ids refs extra c) in Hin.
+    apply inv_rmsd_expr; [exact Hn | exact (Hl _ Hin) | exact Hx | intros rc E; exact (Hc rc E _ Hin)].
   Qed.
 
   Lemma vsum_eig_vec (evec : list RV) : evec <> [] -> vsum Rops (eig_vec Rops evec) = v0.
@@ -619,22 +641,24 @@ Section Rotated.
   Lemma rot_frame_length ids refs (m : RM) : length (rot_frame Rops pos ids refs m) = length ids.
   Proof. unfold rot_frame. rewrite map_length. reflexivity. Qed.
 
-  Lemma inv_rmsd_rot ids refs rotf jdf fc : NoDup ids -> length refs = length ids -> orthogonal (rotf pos) ->
-    rmsdrot_value Rops pos ids refs (rotf pos) <> 0 ->
-    ft (CRmsdRot ids refs rotf jdf) (app (CRmsdRot ids refs rotf jdf) fc) = fc.
+  Lemma inv_rmsd_rot_expr ids refs (Rm : RM) r fc : NoDup ids -> length r = length ids -> orthogonal Rm ->
+    rmsdrot_value Rops pos ids refs Rm r <> 0 ->
+    adot Rops ids (rmsdrot_grads Rops pos ids refs Rm r)
+      (frot Rops Rm (aapply Rops ids (map (mtvmul Rops Rm) (rmsdrot_grads Rops pos ids refs Rm r)) fc))
+    * ofnat Rops (length ids) = fc.
   Proof.
-    intros Hn Hl Ho Hx. cbn [cvc_ft cvc_apply]. set (Rm := rotf pos) in *.
+    intros Hn Hl Ho Hx.
     assert (Hne : ids <> []).
     { intros ->. apply Hx. unfold rmsdrot_value, norm2_sum, rmsdrot_diff, rot_frame, tsum. cbn [map fold_right length vsub_list]; rs.
       unfold Rdiv; rewrite Rmult_0_l; apply sqrt_0. }
     assert (HN : 0 < ofnat Rops (length ids)) by (apply ofnat_pos; destruct ids; [contradiction|cbn; lia]).
-    set (D := rmsdrot_diff Rops pos ids refs Rm) in *.
+    set (D := rmsdrot_diff Rops pos ids refs Rm r) in *.
     assert (HD : length D = length ids).
     { unfold D, rmsdrot_diff. rewrite vsub_list_length; rewrite rot_frame_length; [reflexivity|exact Hl]. }
-    assert (Hsq : rmsdrot_value Rops pos ids refs Rm * rmsdrot_value Rops pos ids refs Rm = norm2_sum Rops D / ofnat Rops (length ids)).
+    assert (Hsq : rmsdrot_value Rops pos ids refs Rm r * rmsdrot_value Rops pos ids refs Rm r = norm2_sum Rops D / ofnat Rops (length ids)).
     { unfold rmsdrot_value; rs. fold D. apply sqrt_sqrt. apply Rmult_le_pos; [apply norm2_sum_nonneg|].
       apply Rlt_le, Rinv_0_lt_compat, HN. }
-    unfold rmsdrot_grads. fold D. set (x := rmsdrot_value Rops pos ids refs Rm) in *.
+    unfold rmsdrot_grads. fold D. set (x := rmsdrot_value Rops pos ids refs Rm r) in *.
     assert (Hxp : 0 < x).
     { assert (0 <= x) by (unfold x, rmsdrot_value; rs; apply sqrt_pos). lra. }
     rs. assert (Rltb 0 x = true) as -> by (apply Rltb_true; exact Hxp).
@@ -649,6 +673,16 @@ Section Rotated.
     rewrite Hgg.
     assert (HS : norm2_sum Rops D = N * (x * x)) by (rewrite Hsq; field; lra).
     rewrite HS. unfold k. field. split; lra.
+  Qed.
+  Lemma inv_rmsd_rot ids refs extra rotf jdf fc : NoDup ids ->
+    (forall r, In r (refs :: extra) -> length r = length ids) -> orthogonal (rotf pos) ->
+    rmsdrot_value Rops pos ids refs (rotf pos) (rmsdrot_best Rops pos ids refs extra (rotf pos)) <> 0 ->
+    ft (CRmsdRot ids refs extra rotf jdf) (app (CRmsdRot ids refs extra rotf jdf) fc) = fc.
+  Proof.
+    intros Hn Hl Ho Hx. cbn [cvc_ft cvc_apply].
+    pose proof (best_copy_In (rot_frame Rops pos ids refs (rotf pos)) refs extra) as Hin.
+    fold (rmsdrot_best Rops pos ids refs extra (rotf pos)) in Hin.
+    apply inv_rmsd_rot_expr; [exact Hn | exact (Hl _ Hin) | exact Ho | exact Hx].
   Qed.
 
   Lemma inv_eigenvector_rot ids refs evec rotf jdf fc : NoDup ids -> length evec = length ids -> orthogonal (rotf pos) ->
@@ -677,7 +711,7 @@ Section General.
   Lemma cvc_ft_linear (c : RC) (F G : RF) a b :
     ft c (fadd Rops (fscale Rops a F) (fscale Rops b G)) = a * ft c F + b * ft c G.
   Proof.
-    destruct c as [g1 g2 os|gm gr gr2 axis os|gm gr gr2 axis os|g1 g2 g3 os|g1 g2 g3 g4 os|ids|ids refs c|ids refs evec c|ids refs rotf jdf|ids refs evec rotf jdf];
+    destruct c as [g1 g2 os|gm gr gr2 axis os|gm gr gr2 axis os|g1 g2 g3 os|g1 g2 g3 g4 os|ids|ids refs extra c|ids refs evec c|ids refs extra rotf jdf|ids refs evec rotf jdf];
       cbn [cvc_ft]; rewrite ?gforce_fadd, ?gforce_fscale, ?adot_fadd, ?adot_fscale.
     - set (u := vunit Rops _). set (x := gforce Rops F g1). set (y := gforce Rops G g1).
       set (x' := gforce Rops F g2). set (y' := gforce Rops G g2). destruct os; vd; vu; unfold Rdiv; ring.
@@ -711,7 +745,7 @@ Section General.
     intros H.
     assert (E : forall g, (forall a, In a (gids g) -> In a (cvc_atoms c)) -> gforce Rops F g = gforce Rops G g).
     { intros g Hg. apply gforce_ext. intros a Ha. apply H, Hg, Ha. }
-    destruct c as [g1 g2 os|gm gr gr2 axis os|gm gr gr2 axis os|g1 g2 g3 os|g1 g2 g3 g4 os|ids|ids refs c|ids refs evec c|ids refs rotf jdf|ids refs evec rotf jdf];
+    destruct c as [g1 g2 os|gm gr gr2 axis os|gm gr gr2 axis os|g1 g2 g3 os|g1 g2 g3 g4 os|ids|ids refs extra c|ids refs evec c|ids refs extra rotf jdf|ids refs evec rotf jdf];
       cbn [cvc_ft cvc_atoms] in *.
     - rewrite (E g1), (E g2) by (intros a Ha; rewrite ?in_app_iff; tauto). reflexivity.
     - rewrite (E gm), (E gr) by (intros a Ha; rewrite ?in_app_iff; tauto). reflexivity.
@@ -731,7 +765,7 @@ Section General.
     intros H.
     assert (E : forall g, (forall a, In a (gids g) -> In a (cvc_measured c)) -> gforce Rops F g = gforce Rops G g).
     { intros g Hg. apply gforce_ext. intros a Ha. apply H, Hg, Ha. }
-    destruct c as [g1 g2 os|gm gr gr2 axis os|gm gr gr2 axis os|g1 g2 g3 os|g1 g2 g3 g4 os|ids|ids refs c|ids refs evec c|ids refs rotf jdf|ids refs evec rotf jdf];
+    destruct c as [g1 g2 os|gm gr gr2 axis os|gm gr gr2 axis os|g1 g2 g3 os|g1 g2 g3 g4 os|ids|ids refs extra c|ids refs evec c|ids refs extra rotf jdf|ids refs evec rotf jdf];
       cbn [cvc_ft cvc_measured] in *.
     - destruct os; [rewrite (E g1) by (intros a Ha; exact Ha); reflexivity|].
       rewrite (E g1), (E g2) by (intros a Ha; rewrite ?in_app_iff; tauto). reflexivity.
@@ -757,7 +791,7 @@ Section General.
     intros H.
     assert (E : forall g v, (forall b, In b (gids g) -> In b (cvc_atoms c)) -> gapply Rops mass g v fc a = v0).
     { intros g v Hg. apply gapply_support. intros Ha. apply H, Hg, Ha. }
-    destruct c as [g1 g2 os|gm gr gr2 axis os|gm gr gr2 axis os|g1 g2 g3 os|g1 g2 g3 g4 os|ids|ids refs c|ids refs evec c|ids refs rotf jdf|ids refs evec rotf jdf];
+    destruct c as [g1 g2 os|gm gr gr2 axis os|gm gr gr2 axis os|g1 g2 g3 os|g1 g2 g3 g4 os|ids|ids refs extra c|ids refs evec c|ids refs extra rotf jdf|ids refs evec rotf jdf];
       cbn [cvc_apply cvc_atoms] in *.
     - unfold fadd. rewrite !E by (intros b Hb; rewrite ?in_app_iff; tauto). apply vadd_0_l.
     - destruct gr2 as [g2|]; unfold fadd; rewrite !E by (intros b Hb; rewrite ?in_app_iff; tauto); rewrite ?vadd_0_l; reflexivity.
@@ -1277,7 +1311,7 @@ Qed.
 Definition ex_id : RM := ((1, 0, 0), (0, 1, 0), (0, 0, 1)).
 Lemma ex_rotated :
   (forall v : RV, mvmul Rops ex_id (mtvmul Rops ex_id v) = v) /\
-  rmsdrot_value Rops ex_pos [0%nat; 1%nat] ex_refs ex_id <> 0.
+  rmsdrot_value Rops ex_pos [0%nat; 1%nat] ex_refs ex_id ex_refs <> 0.
 Proof.
   split.
   - intros [[x y] z]. unfold ex_id, mvmul, mtvmul, vadd, vscale, vdot. rs. f_equal; [f_equal|]; ring.
@@ -1362,20 +1396,21 @@ Lemma thm_inverse_gyration : forall (cell : option RV) (mass : nat -> R) (pos : 
   NoDup ids -> gyr_value Rops pos ids <> 0 ->
   cvc_ft Rops PI cell mass pos (CGyration ids) (cvc_apply Rops PI cell mass pos (CGyration ids) fc) = fc.
 Proof. exact inv_gyration. Qed.
-Lemma thm_inverse_rmsd : forall (cell : option RV) (mass : nat -> R) (pos : RF) (ids : list nat) (refs : list RV) (center : option RV) (fc : R),
-  NoDup ids -> length refs = length ids -> rmsd_value Rops pos ids refs center <> 0 ->
-  (forall rc, center = Some rc -> vsum Rops refs = vscale Rops (ofnat Rops (length ids)) rc) ->
-  cvc_ft Rops PI cell mass pos (CRmsd ids refs center) (cvc_apply Rops PI cell mass pos (CRmsd ids refs center) fc) = fc.
+Lemma thm_inverse_rmsd : forall (cell : option RV) (mass : nat -> R) (pos : RF) (ids : list nat) (refs : list RV) (extra : list (list RV)) (center : option RV) (fc : R),
+  NoDup ids -> (forall r, In r (refs :: extra) -> length r = length ids) ->
+  rmsd_value Rops pos ids (rmsd_best Rops pos ids refs extra center) center <> 0 ->
+  (forall rc, center = Some rc -> forall r, In r (refs :: extra) -> vsum Rops r = vscale Rops (ofnat Rops (length ids)) rc) ->
+  cvc_ft Rops PI cell mass pos (CRmsd ids refs extra center) (cvc_apply Rops PI cell mass pos (CRmsd ids refs extra center) fc) = fc.
 Proof. exact inv_rmsd. Qed.
 Lemma thm_inverse_eigenvector : forall (cell : option RV) (mass : nat -> R) (pos : RF) (ids : list nat) (refs evec : list RV) (center : option RV) (fc : R),
   NoDup ids -> length evec = length ids -> norm2_sum Rops (eig_vec Rops evec) <> 0 ->
   cvc_ft Rops PI cell mass pos (CEigenvector ids refs evec center) (cvc_apply Rops PI cell mass pos (CEigenvector ids refs evec center) fc) = fc.
 Proof. exact inv_eigenvector. Qed.
-Lemma thm_inverse_rmsd_rotated : forall (cell : option RV) (mass : nat -> R) (pos : RF) (ids : list nat) (refs : list RV) (rotf : RF -> RM) (jdf : RF -> R) (fc : R),
-  NoDup ids -> length refs = length ids ->
+Lemma thm_inverse_rmsd_rotated : forall (cell : option RV) (mass : nat -> R) (pos : RF) (ids : list nat) (refs : list RV) (extra : list (list RV)) (rotf : RF -> RM) (jdf : RF -> R) (fc : R),
+  NoDup ids -> (forall r, In r (refs :: extra) -> length r = length ids) ->
   (forall v : RV, mvmul Rops (rotf pos) (mtvmul Rops (rotf pos) v) = v) ->
-  rmsdrot_value Rops pos ids refs (rotf pos) <> 0 ->
-  cvc_ft Rops PI cell mass pos (CRmsdRot ids refs rotf jdf) (cvc_apply Rops PI cell mass pos (CRmsdRot ids refs rotf jdf) fc) = fc.
+  rmsdrot_value Rops pos ids refs (rotf pos) (rmsdrot_best Rops pos ids refs extra (rotf pos)) <> 0 ->
+  cvc_ft Rops PI cell mass pos (CRmsdRot ids refs extra rotf jdf) (cvc_apply Rops PI cell mass pos (CRmsdRot ids refs extra rotf jdf) fc) = fc.
 Proof. exact inv_rmsd_rot. Qed.
 Lemma thm_inverse_eigenvector_rotated : forall (cell : option RV) (mass : nat -> R) (pos : RF) (ids : list nat) (refs evec : list RV) (rotf : RF -> RM) (jdf : RF -> R) (fc : R),
   NoDup ids -> length evec = length ids ->
@@ -1506,10 +1541,10 @@ Lemma thm_jacobian_closed_forms : forall (cell : option RV) (mass : nat -> R) (p
   (forall g1 g2 g3 g4 os, cvc_jd Rops PI cell mass pos (CDihedral g1 g2 g3 g4 os) = 0) /\
   (forall ids, gyr_value Rops pos ids <> 0 ->
      cvc_jd Rops PI cell mass pos (CGyration ids) = (3 * ofnat Rops (length ids) - 4) / cvc_value Rops PI cell mass pos (CGyration ids)) /\
-  (forall ids refs, 0 < rmsd_value Rops pos ids refs None ->
-     cvc_jd Rops PI cell mass pos (CRmsd ids refs None) = (3 * ofnat Rops (length ids) - 1) / cvc_value Rops PI cell mass pos (CRmsd ids refs None)) /\
-  (forall ids refs rc, 0 < rmsd_value Rops pos ids refs (Some rc) ->
-     cvc_jd Rops PI cell mass pos (CRmsd ids refs (Some rc)) = (3 * ofnat Rops (length ids) - 4) / cvc_value Rops PI cell mass pos (CRmsd ids refs (Some rc))) /\
+  (forall ids refs extra, 0 < cvc_value Rops PI cell mass pos (CRmsd ids refs extra None) ->
+     cvc_jd Rops PI cell mass pos (CRmsd ids refs extra None) = (3 * ofnat Rops (length ids) - 1) / cvc_value Rops PI cell mass pos (CRmsd ids refs extra None)) /\
+  (forall ids refs extra rc, 0 < cvc_value Rops PI cell mass pos (CRmsd ids refs extra (Some rc)) ->
+     cvc_jd Rops PI cell mass pos (CRmsd ids refs extra (Some rc)) = (3 * ofnat Rops (length ids) - 4) / cvc_value Rops PI cell mass pos (CRmsd ids refs extra (Some rc))) /\
   (forall ids refs evec c, cvc_jd Rops PI cell mass pos (CEigenvector ids refs evec c) = 0).
 Proof. intros cell mass pos. repeat split.
   - intros g1 g2 os H. cbn [cvc_jd cvc_value]. unfold inv_or_zero. rs.
@@ -1518,8 +1553,8 @@ Proof. intros cell mass pos. repeat split.
     destruct (Reqb' (dxy_value Rops cell mass pos gm gr gr2 ax) 0) eqn:E; [apply Reqb_true in E; contradiction|reflexivity].
   - intros ids H. cbn [cvc_jd cvc_value]. unfold inv_or_zero. rs.
     destruct (Reqb' (gyr_value Rops pos ids) 0) eqn:E; [apply Reqb_true in E; contradiction|reflexivity].
-  - intros ids refs H. cbn [cvc_jd cvc_value]. rs. apply Rltb_true in H. rewrite H. f_equal. ring.
-  - intros ids refs rc H. cbn [cvc_jd cvc_value]. rs. apply Rltb_true in H. rewrite H. f_equal. ring. Qed.
+  - intros ids refs extra H. cbn [cvc_jd cvc_value] in *. rs. apply Rltb_true in H. rewrite H. f_equal. ring.
+  - intros ids refs extra rc H. cbn [cvc_jd cvc_value] in *. rs. apply Rltb_true in H. rewrite H. f_equal. ring. Qed.
 Lemma thm_jacobian_angle : forall (cell : option RV) (mass : nat -> R) (pos : RF) (g1 g2 g3 : RG) (os : bool),
   ang_cos Rops cell mass pos g1 g2 g3 * ang_cos Rops cell mass pos g1 g2 g3 < 1 ->
   cvc_jd Rops PI cell mass pos (CAngle g1 g2 g3 os) =
